@@ -56,6 +56,29 @@ func init() {
 	probes["O53"] = probeO53
 	probes["O54"] = probeO54
 	probes["O55"] = probeO55
+	probes["O63"] = func() (bool, string) {
+		return guard(func() (bool, string) {
+			a, b := underOrders(func() string {
+				c, _ := ucfg.NewFrom(map[string]interface{}{"svc": "${defaults}", "defaults": map[string]interface{}{"port": 80, "url": "h:${svc.port}"}}, sepVar...)
+				var m map[string]interface{}
+				err := c.Unpack(&m, sepVar...)
+				return fmt.Sprint(err == nil)
+			})
+			return a != b, "Unpack succeeds under sorted / reversed enumeration: " + a + " / " + b
+		})
+	}
+	probes["O64"] = func() (bool, string) {
+		return guard(func() (bool, string) {
+			a, b := underOrders(func() string {
+				e, _ := ucfg.NewFrom(map[string]interface{}{"x": "${y}", "y": 5}, sepVar...)
+				c, _ := ucfg.NewFrom(map[string]interface{}{"a": "${y}", "y": "${x:9}"}, sepVar...)
+				var m map[string]interface{}
+				c.Unpack(&m, append(append([]ucfg.Option{}, sepVar...), ucfg.Env(e))...)
+				return fmt.Sprint(m["a"])
+			})
+			return a != b, "a under sorted / reversed enumeration: " + a + " / " + b
+		})
+	}
 	probes["O62"] = func() (bool, string) {
 		c, _ := ucfg.NewFrom(map[string]interface{}{"a": map[string]interface{}{"b": []int{1, 2}}})
 		n, err := c.CountField("a.b", ucfg.PathSep("."))
